@@ -132,7 +132,8 @@ class Scanner:
         def verb_err():
             return self.error_token('bad \\verb argument', start, latex)
         start_arg = start + len('\\verb')
-        if start_arg >= self.max_pos:
+        if start_arg >= self.max_pos or latex[start_arg] == '\n':
+            # NB: a line break cannot delimit the argument
             return verb_err()
         end_arg = latex[start_arg] + '\n'
         start_arg += 1
